@@ -12,8 +12,11 @@ git -C /repo apply "$PATCH" || { echo "patch does not apply"; exit 2; }
 mkdir -p /verif/out/try
 for P in "$@"; do
   LOG=/verif/out/try/$LABEL-$P.log
+  # the evidence file must keep describing the unchanged tree
+  cp /verif/evidence/$P.json /verif/out/try/evidence-$P.json.bak 2>/dev/null
   VERIF_SEED=${VERIF_SEED:-20260923} ./check $P --tier quick > $LOG 2>&1
   rc=$?
   sigs=$(grep "^  oracle\|regression scenario" $LOG | sed 's/detail=.*//; s/^ *//' | sort | uniq -c | tr '\n' ';' | cut -c1-400)
+  cp /verif/out/try/evidence-$P.json.bak /verif/evidence/$P.json 2>/dev/null
   if [ $rc -eq 1 ]; then echo "$LABEL $P DETECTED rc=$rc :: $sigs"; elif [ $rc -eq 0 ]; then echo "$LABEL $P missed"; else echo "$LABEL $P HARNESS rc=$rc $(tail -3 $LOG | tr '\n' ' ')"; fi
 done
